@@ -331,3 +331,23 @@ End Corollaries.
 Lemma replace_resplits_lines : forall (A : Type) (replacer : A -> text) (lines : list A),
   replace_lines replacer [] lines = lines_lf (concat (map replacer lines)).
 Proof. intros. now rewrite replace_lines_spec. Qed.
+
+(** The memory buffer size (in-memory vs on-disk representation of frozen sources) never changes a
+    verdict or a transformed text. *)
+Lemma mem_buff_irrelevant :
+  forall re_search re_full re_sub py_upper py_lower is_space,
+    library_assumptions py_upper py_lower is_space ->
+    forall (mem1 mem2 : N) (e : tsource),
+      (forall m, eval_m re_search re_full re_sub py_upper py_lower is_space mem1 m
+                        (eval_src re_search re_full re_sub py_upper py_lower is_space mem1 e)
+                 = eval_m re_search re_full re_sub py_upper py_lower is_space mem2 m
+                          (eval_src re_search re_full re_sub py_upper py_lower is_space mem2 e)) /\
+      (forall T, text_of (eval_t re_search re_full re_sub py_upper py_lower is_space mem1 T
+                                 (eval_src re_search re_full re_sub py_upper py_lower is_space mem1 e))
+                 = text_of (eval_t re_search re_full re_sub py_upper py_lower is_space mem2 T
+                                   (eval_src re_search re_full re_sub py_upper py_lower is_space mem2 e))).
+Proof.
+  intros re_search re_full re_sub py_upper py_lower is_space Hlib mem1 mem2 e. split.
+  - intros m. rewrite !(matcher_correct re_search re_full re_sub py_upper py_lower is_space _ Hlib). reflexivity.
+  - intros T. rewrite !(transformer_correct re_search re_full re_sub py_upper py_lower is_space _ Hlib). reflexivity.
+Qed.
